@@ -42,6 +42,7 @@ type Opts struct {
 	Dir          string // reuse an existing directory (restart); default: fresh temp dir
 	NoAsset      bool
 	GRPCOpts     []grpc.ServerOption // interceptors of a recording / faulty peer
+	AccessLog    io.Writer           // where the cache's access log goes (default: discarded); a slow writer widens the windows around log calls
 }
 
 // Fixture is a running set of front ends over one disk cache.
@@ -64,6 +65,13 @@ type Fixture struct {
 }
 
 func silent() *log.Logger { return log.New(io.Discard, "", 0) }
+
+func accessLogger(w io.Writer) *log.Logger {
+	if w == nil {
+		return silent()
+	}
+	return log.New(w, "", 0)
+}
 
 // New starts a fixture.
 func New(o Opts) (*Fixture, error) {
@@ -94,7 +102,7 @@ func New(o Opts) (*Fixture, error) {
 		disk.WithStorageMode(o.Mode),
 		disk.WithZstdImplementation(o.Impl),
 		disk.WithMaxBlobSize(maxBlob),
-		disk.WithAccessLogger(silent()),
+		disk.WithAccessLogger(accessLogger(o.AccessLog)),
 	}
 	if o.HardLimit > 0 {
 		opts = append(opts, disk.WithMaxSizeHardLimit(o.HardLimit))
